@@ -37,6 +37,12 @@ type c12dCase struct {
 	// of Start on a scripted packet producer); 2 the same, and while the sampling step runs another ConfigureAbacoSource request with
 	// other options arrives - it is refused (the source is not Inactive) and must change nothing
 	ViaSource int `json:"via_source,omitempty"`
+	// ViaRPC (with ViaSource): the options are sent with the ConfigureAbacoSource request of a real SourceControl, after an earlier
+	// accepted request with other options
+	ViaRPC bool `json:"via_rpc,omitempty"`
+	// TwoGroups (with ViaSource): a second channel group above this one is seen first while sampling, and channels of both
+	// groups are inverted
+	TwoGroups bool `json:"two_groups,omitempty"`
 }
 
 // c12dProducer is a PacketProducer whose sampling step waits until the harness lets it go on.
@@ -97,6 +103,17 @@ func c12dGen(t *rapid.T) c12dCase {
 		}
 	}
 	c.ViaSource = rapid.SampledFrom([]int{0, 0, 1, 2, 2}).Draw(t, "viasource")
+	if c.ViaSource > 0 {
+		c.ViaRPC = rapid.Bool().Draw(t, "viarpc")
+		c.TwoGroups = rapid.Bool().Draw(t, "twogroups")
+		if c.TwoGroups {
+			c.Invert = append([]int{c.First}, c.Invert...) // the lower group's first channel is inverted, and one of the upper group (added by the runner)
+		}
+		if c.ViaRPC && rapid.IntRange(0, 3).Draw(t, "alloff") == 0 {
+			// every option at its zero value: raw data, nothing dropped, unwrapped or inverted
+			c.Rescale, c.Unwrap, c.Bias, c.ResetAfter, c.PulseSign, c.Invert, c.TwoGroups = false, false, false, 0, 0, nil, false
+		}
+	}
 	ncalls := rapid.IntRange(1, 4).Draw(t, "ncalls")
 	for i := 0; i < ncalls; i++ {
 		c.Calls = append(c.Calls, rapid.IntRange(1, 4).Draw(t, "call"))
@@ -138,18 +155,39 @@ func c12dRun(c c12dCase) (v vVerdict) {
 		if err != nil {
 			return vFailf("harness", "NewAbacoSource: %v", err)
 		}
+		upperFirst, upperN := c.First+c.Nchan, 3
 		accepted := AbacoSourceConfig{AbacoUnwrapOptions: opt}
 		accepted.InvertChan = append([]int(nil), c.Invert...)
-		if err := as.Configure(&accepted); err != nil {
+		if c.TwoGroups {
+			accepted.InvertChan = append(accepted.InvertChan, upperFirst+1)
+		}
+		if c.ViaRPC {
+			sc := NewSourceControl()
+			sc.clientUpdates = clientMessageChan
+			as = sc.abaco
+			prior := AbacoSourceConfig{AbacoUnwrapOptions: AbacoUnwrapOptions{RescaleRaw: true, Unwrap: true, Bias: !c.Bias, ResetAfter: c.ResetAfter + 7, PulseSign: 1, InvertChan: []int{c.First + c.Nchan - 1}}}
+			var ok bool
+			if err := sc.ConfigureAbacoSource(&prior, &ok); err != nil {
+				return vFailf("configure-rejected", "ConfigureAbacoSource with options %+v: %v", prior.AbacoUnwrapOptions, err)
+			}
+			if err := sc.ConfigureAbacoSource(&accepted, &ok); err != nil {
+				return vFailf("configure-rejected", "ConfigureAbacoSource with options %+v after an earlier request: %v", opt, err)
+			}
+		} else if err := as.Configure(&accepted); err != nil {
 			return vFailf("configure-rejected", "Configure with options %+v on a new AbacoSource: %v", opt, err)
 		}
-		mk := func(seq uint32, counter uint64) *packets.Packet {
-			p := packets.NewPacket(10, 7, seq, c.First)
-			p.NewData(make([]int16, c.F*c.Nchan), []int16{int16(c.Nchan)})
+		mkg := func(seq uint32, counter uint64, first, n int) *packets.Packet {
+			p := packets.NewPacket(10, 7, seq, first)
+			p.NewData(make([]int16, c.F*n), []int16{int16(n)})
 			p.SetTimestamp(packets.MakeTimestamp(uint16(counter>>32), uint32(counter), 1e9))
 			return p
 		}
-		fake := &c12dProducer{sample: []*packets.Packet{mk(1, 1000000), mk(2, 1000000+uint64(c.F)*1000)}, entered: make(chan struct{}), release: make(chan struct{})}
+		mk := func(seq uint32, counter uint64) *packets.Packet { return mkg(seq, counter, c.First, c.Nchan) }
+		sample := []*packets.Packet{mk(1, 1000000), mk(2, 1000000+uint64(c.F)*1000)}
+		if c.TwoGroups { // the upper group's packets come first
+			sample = []*packets.Packet{mkg(1, 1000000, upperFirst, upperN), mk(1, 1000000), mkg(2, 1000000+uint64(c.F)*1000, upperFirst, upperN), mk(2, 1000000+uint64(c.F)*1000)}
+		}
+		fake := &c12dProducer{sample: sample, entered: make(chan struct{}), release: make(chan struct{})}
 		as.producers = []PacketProducer{fake}
 		if err := as.SetStateStarting(); err != nil {
 			return vFailf("harness", "SetStateStarting: %v", err)
@@ -276,6 +314,12 @@ func c12dRun(c c12dCase) (v vVerdict) {
 		v.Classes = append(v.Classes, "group-made-by-the-source")
 		if c.ViaSource == 2 {
 			v.Classes = append(v.Classes, "refused-configure-while-starting")
+		}
+		if c.ViaRPC {
+			v.Classes = append(v.Classes, "options-sent-through-the-rpc-method")
+		}
+		if c.TwoGroups {
+			v.Classes = append(v.Classes, "two-groups-with-inverted-channels")
 		}
 	}
 	_ = fmt.Sprint
